@@ -133,7 +133,7 @@ def program_strategy(draw, max_ops=30, removal_heavy=False):
             ops.insert(len(ops) - 1, {"op": "plain"})
             ops[-1] = {**ops[-1], "same": draw(st.sampled_from([True, True, False]))}
             ops.append({"op": "plain_remove", "who": draw(idx)})
-    return {"ops": ops, "version": draw(st.sampled_from([2.0, 2.1, 2.1])),
+    return {"ops": ops, "version": draw(st.sampled_from([2.0, 2.1, 2.1])), "nested": draw(st.integers(0, 2)) == 0,
             "allow_known": draw(st.integers(0, 9)) == 0, "check_every": draw(st.booleans())}
 
 
@@ -221,7 +221,18 @@ class ConcatRun:
         try:
             self.paths.append(env.new_path("cc"))
             self.wss.append(Workspace.create(self.paths[0], version=self.p.get("version", 2.1)))
-            grp = DrillholeGroup.create(self.ws(), name="G0")
+            self.box_uid = None
+            if self.p.get("nested"):
+                # the drillhole groups sit inside an ordinary container group, not directly under the root
+                from geoh5py.groups import ContainerGroup
+
+                box = ContainerGroup.create(self.ws(), name="box")
+                self.box_uid = box.uid
+                grp = DrillholeGroup.create(self.ws(), name="G0", parent=box)
+                self.res.label("groups-nested-in-container")
+                del box
+            else:
+                grp = DrillholeGroup.create(self.ws(), name="G0")
             self.groups.append(MGroup(str(grp.uid), 0))
             del grp
             for i, op in enumerate(self.p["ops"]):
@@ -294,7 +305,8 @@ class ConcatRun:
         if len([g for g in self.groups if g.world == 0]) >= 2:
             return False
         # groups may share a name (two "Assays" groups under different containers are legitimate)
-        grp = self.call("DrillholeGroup", DrillholeGroup.create, self.ws(), name=op.get("name", "G0"))
+        kwargs = {"parent": self.ws().get_entity(self.box_uid)[0]} if getattr(self, "box_uid", None) else {}
+        grp = self.call("DrillholeGroup", DrillholeGroup.create, self.ws(), name=op.get("name", "G0"), **kwargs)
         self.groups.append(MGroup(str(grp.uid), 0))
         self.touched = {str(grp.uid)}
         return True
